@@ -272,7 +272,7 @@ fn stub_handle_rxc_join<const N: usize, const D: usize>(
 // ---- the Class C pieces of a transaction, one call each (the send-level composition with the
 // class-c feature compiled in is the thorough-tier harness async_send_class_c) ---------------------
 
-//@h id=async_between_windows_c props=C06,C07,C10,C04 tier=quick build=dev-eu868 cost=240 timeout=1800
+//@h id=async_between_windows_c props=C06,C07,C10 tier=quick build=dev-eu868 cost=240 timeout=1800
 //@bounds one Device::between_windows(duration) on a joined Class C device, arbitrary duration and uplink counter: up to two frames heard before the timer fires (each rejected, accepted or hitting counter exhaustion) or silence (futures::select decided both ways), the radio failing at an arbitrary call or not at all
 //@encodes async_device::Device::between_windows (class-c: futures::select of PhyRxTx::rx_continuous against Timer::at, rxc_listen_until_timeout), handle_mac_response
 //@assumes Mac::{handle_rxc, get_rxc_config, rx2_complete} replaced by contract stubs; the timer future is ready when polled (it wins the select exactly when the radio stays pending)
@@ -338,7 +338,7 @@ fn async_window_complete_c() {
     }
 }
 
-//@h id=async_between_windows_unjoined props=C07,C11,C04 tier=quick build=dev-eu868 cost=240 timeout=1800
+//@h id=async_between_windows_unjoined props=C07,C11 tier=quick build=dev-eu868 cost=240 timeout=1800
 //@bounds one Device::between_windows(duration) with Class C enabled on a device that has no session yet (it is waiting for the windows of its JoinRequest): up to two frames heard before the timer fires or silence, fault-free radio: a frame heard there cannot be for this device, it has no effect and the wait for the join window goes on (Device::join around it: async_join)
 //@encodes async_device::Device::between_windows (class-c), handle_mac_response
 //@assumes Mac::handle_rxc replaced by its contract for a device without a session (NotJoined, nothing changes: decided by rxc_not_joined); Mac::get_rxc_config by its contract stub; timers immediate
